@@ -7,6 +7,16 @@ TRUST = ('trusted base: the independent reference definitions under vlib/ref (pi
          'CPython, hashlib/OpenSSL 3.0 as installed; sampling only where not marked exhaustive')
 # id -> (category, technique, text, note)
 CHECKS = {
+ 'C01': ('exploration', 'Hypothesis-generated objects vs independent reference wire encoder/decoder; exhaustive prefix (truncation) and extension fault enumeration per encoding',
+         'Byte-exact differential against a reference encoder written from the protocol description, field-exact round trip, and for every '
+         'generated encoding every strict prefix (all of them up to 600 bytes) must raise exactly the truncation error and every extension '
+         'exactly the extra-data error carrying object and surplus.', TRUST),
+ 'C02': ('exploration', 'Hypothesis metamorphic (witness swap) + differential vs reference dSHA256 of reference encodings; mutable/immutable pairing',
+         'For each generated transaction all witness variants must share the reference txid while wtxid follows the full encoding; blocks hash '
+         'their 80-byte header whatever they carry; immutable/mutable pairs agree on ids, ==, != and hash().', TRUST),
+ 'C15': ('exploration', 'enumeration of every transaction count + Hypothesis witness/duplicate variants vs recursive reference merkle and weight formula',
+         'Every n in 1..70 (1..300 thorough, powers of two +-1 to 1025) with generated witness subsets and duplicates is compared with a recursive '
+         'textbook merkle definition over reference txids/wtxids; wrong declared roots must be refused; weights equal 3*stripped+full.', TRUST),
  'C17': ('exploration', 'exhaustive boundary-grid enumeration + Hypothesis differential vs reference SetCompact/GetCompact and PoW predicate',
          'Differential test of the compact codec and CheckProofOfWork against a transcription of Core arith_uint256 over the complete '
          'exponent x boundary-mantissa grid, every bit length 0..256, boundary hashes on all four chains, plus random triples.',
